@@ -37,4 +37,8 @@ a74ab9d C14
 17c4b31 C15
 b9ca776 C15
 32d3fd8 C15
+78ee328 C06 C04
+20600df C12
+95051d5 C12
+f4b7a44 C13
 LIST
